@@ -1148,7 +1148,12 @@ func (n *CustomNode) Exec(ctx context.Context, prepResult any) (any, error) {
 // Post implements Node.Post by calling the custom postFunc if provided
 func (n *CustomNode) Post(ctx context.Context, shared *SharedStore, prepResult, execResult any) (Action, error) {
 	if n.postFunc != nil {
-		return n.postFunc(ctx, shared, NewResult(prepResult), NewResult(execResult))
+		// Exec hands back an error Result as-is; don't wrap it a second time
+		exec, ok := execResult.(Result)
+		if !ok {
+			exec = NewResult(execResult)
+		}
+		return n.postFunc(ctx, shared, NewResult(prepResult), exec)
 	}
 	return n.BaseNode.Post(ctx, shared, prepResult, execResult)
 }
